@@ -141,6 +141,16 @@ def run(ctx):
     must_fire(ctx, "R16.6", {"m.py": "import xarray\n\ndef g() -> xarray.Dataset:\n    return xarray.Dataset()\n\n"
                                      "def f():\n    return xarray.Dataset(g())\n"},
               lambda sub, mp: binding.dataset_wrap_rule(sub, "R16.6", mp.all_functions), "xarray.Dataset(<Dataset>)")
+    # ---- R16.7 direction bin widths and directional integration of the 2-D class (shared with C02)
+    from .c02 import direction_rules as _dir_rules
+    with ctx.renamed({"R02.1": "R16.7", "R02.2": "R16.7", "R02.3": "R16.7"}):
+        _dir_rules(ctx)
+    ctx.require_count("R16.7", 8)
+    # ---- R16.8 no unsynchronised derived state on the objects this property queries (shared rule, see statecache.py)
+    from ..statecache import instance_memo_rule as _memo, positive_example as _memo_pos
+    _memo(ctx, "R16.8", [p.get_class("wavespectra.spectrum.FrequencySpectrum"), p.get_class("wavespectra.spectrum.FrequencyDirectionSpectrum")], "spectrum classes")
+    _memo_pos(ctx, "R16.8")
+    ctx.require_count("R16.8", 2)
     ctx.require_count("R16.1", 6)
     ctx.require_count("R16.2", 10)
     ctx.require_count("R16.3", 12)
